@@ -259,6 +259,28 @@ def run(chk: core.Check, tier: str, seed: int) -> None:
         for e in errors:
             chk.violation({"clause": "a thread raised while compiling/evaluating on a shared environment", "error": e["error"].split(":")[0]},
                           {"threads": nt, **e})
+    # function extensions: an iterator of environment A, while environments B, C are created / reconfigured
+    from .. import probes  # noqa: PLC0415
+    for rnd in range(4):
+        sig = [("keep", ["V"], "L")]
+        env_a = probes.make_env(jp, sig, [])                     # probe semantics: true iff the argument is not Nothing
+        doc = [{"a": 1}, {"b": 2}, {"a": 0}, {"a": None}, 5, {"a": [1]}]
+        q = "$[?keep(@.a)]" if rnd % 2 == 0 else "$[?keep(@.a) && !keep(@.b)]"
+        it = iter(env_a.compile(q).finditer(doc) if rnd < 2 else env_a.finditer(q, doc))
+        items = [core.enc_loc(next(it).location)]
+        env_b = jp.JSONPathEnvironment()                         # a plain environment is constructed mid-iteration
+
+        class Other(jp.JSONPathEnvironment):
+            def setup_function_extensions(self):
+                super().setup_function_extensions()
+                self.function_extensions["keep"] = probes.make_env(jp, [("keep", ["N"], "L")], []).function_extensions["keep"]
+
+        env_c = Other()
+        env_b.function_extensions["keep"] = env_c.function_extensions["keep"]
+        items += [core.enc_loc(n.location) for n in it]
+        recs.append({"op": "find", "q": core.enc_text(q), "doc": core.enc_value(doc), "out": "ok", "stage": "find", "jp": True, "cls": "",
+                     "locs": items, "reg": probes.reg_records(sig)})
+        del env_b, env_c
     chk.notes["threaded_runs"] = runs * 3
     chk.sample({"threaded_record": {"query": core.dec_text(recs[0]["q"]), "threads": recs[0].get("threads"), "locs": recs[0]["locs"]}})
     common.judge(chk, recs, "c16_threads", what="Trace: per-iterator results of threaded runs vs Eval.tla")
